@@ -590,6 +590,12 @@ def index(base, key):
                     return src.items[int(ci)]
             else:
                 return index(src, a[2])
+    if a[0] == 'app' and a[1] == 'setitem' and len(a[2]) == 3 and isinstance(a[2][2], Poly) and \
+            (a[2][1] == ELLIPSIS or (isinstance(a[2][1], Slice) and a[2][1].lo in (NONE, None) and a[2][1].hi in (NONE, None)
+                                     and a[2][1].step in (NONE, None))) and isinstance(key, (Poly, Slice)) and \
+            a[2][2].single_atom() is not None and a[2][2].single_atom()[0] in ('idx', 'app', 'loop', 'sym', 'attr'):
+        # x[:] = v (or x[...] = v) replaces every entry: reading entry k afterwards reads v[k] (v an array expression)
+        return index(a[2][2], key)
     if a[0] == 'app' and a[1] == 'setitem' and len(a[2]) == 3 and a[2][1] == key and isinstance(a[2][2], Poly) \
             and isinstance(key, (Poly, Slice, Tup)):
         return a[2][2]            # read back what was just stored under the same key
@@ -826,7 +832,7 @@ def block_rows_view(v, array, blocks, rows):
             if len(args) == 2 and isinstance(args[1], Tup):
                 args = [args[0]] + list(args[1].items)
             if len(args) == 4 and args[0] == array and args[1] == blocks and args[2] == Poly.const(rows) \
-                    and args[3] == Poly.const(-1):
+                    and args[3] in (Poly.const(-1), index(attr(array, 'shape'), Poly.const(1))):
                 mapping[a] = index(array, Slice(a[2] * rows, a[2] * rows + rows))
         if not mapping:
             return v
